@@ -169,6 +169,25 @@ CHECKS = {
              "the model and log no invocation.",
         design="6/C17, 7 (D9, D10)", note="thin by nature: which operation dispatches to which special method is CPython's.",
         technique="Coq model without special-method access + refutation/guard theorems + adversarial-class correspondence reusing all other drivers"),
+    "C19": dict(
+        text="Partial by nature (the copier is CPython's). Proved: in a consistent forest the object graph reachable from "
+             "any entry node through parent/children/target references contains its whole tree and the targets' trees; "
+             "the consistency check evaluated on copies is the C01 invariant. The contract of the copier is evaluated in "
+             "Coq on every explored copy: reachable set, bijective renaming, shape, child order, classes, attributes, "
+             "symlink targets, entry position, inv_b. Tie: every shape <= 4 nodes with mixed classes, a second tree, "
+             "links (same tree / other tree / link to link) or all-__slots__ LightNodeMixin; every entry node; deepcopy "
+             "and pickle protocols 0-5; copy and original mutated in turn.",
+        design="6/C19", note="pickle/deepcopy mechanics (__reduce_ex__, __setstate__, recursion limits) are outside the model.",
+        technique="Coq proof (reachability) + isomorphism/consistency predicate evaluated in Coq on observed copies"),
+    "C20": dict(
+        text="Theorems: reading a data attribute through a link chain of any length reads the final target's dictionary "
+             "(AttributeError iff absent; refused-name tuples extracted from /repo); writing writes it; write-then-read "
+             "through every object with the same final target; the invariant (links hold no data attributes) is "
+             "preserved. Structural independence holds by the types of the model and is checked on the implementation by "
+             "the harness. Defect D13 (constructor kwargs of a link to a link) repaired by fix: acc44ab. Tie: random "
+             "interleavings of object creation (links to links), writes, reads, moves and children assignments.",
+        design="6/C20", note="attribute lookup order is CPython's; 'every other attribute' = data attributes.",
+        technique="Coq proof (refinement to the final target's dictionary) + correspondence"),
 }
 
 NOT_YET = "check not built yet in this round (work in progress; see DESIGN.md section 6 for the plan)"
